@@ -172,6 +172,13 @@ Proof.
   - apply Base.Reflect.nodupb_NoDup. vm_compute. reflexivity.
 Qed.
 
+From CKC Require Import Model.Proj Proofs.ProjC06.
+(* the `hrself` line of the correspondence check is the constant `1 1 1` on five, six or seven distinct real
+   cards: the reported record (plain, validated) is the conversion of the reported value; not Invalid; consistent *)
+Theorem C06_projection : forall chk n ws,
+  (n = 5 \/ n = 6 \/ n = 7)%nat -> HandN n ws -> proj_hrself chk ws = [Ok true; Ok true; Ok true].
+Proof. exact proj_hrself_const. Qed.
+
 Print Assumptions C06_invalid.
 Print Assumptions C06_describes.
 Print Assumptions C06_describes_class.
@@ -181,3 +188,4 @@ Print Assumptions C06_consistent.
 Print Assumptions C06_cards.
 Print Assumptions C06_spec_perm.
 Print Assumptions C06_cards_six_seven.
+Print Assumptions C06_projection.
